@@ -11,6 +11,17 @@
 //!   like the wrapper documents (clock, two constant getters, PID following the command getter) and fed
 //!   the times / states / commands seen at the wrapper's terminal; motor log compared on canonical bits
 //!   (same code on both sides — the PID law itself is C11's job).
+//! * "Observing inner object" stratum (sub-checks `*-observing`), for every wrapper: the inner object
+//!   holds handles to the wrapper's own terminal and/or to the external terminal connected to it and,
+//!   inside its `impl_set` / `update` / `get`, READS them (the three `Getter` views and both
+//!   `get_last_request` slots) like a servo with feedback looking at the shaft it sits on. On the
+//!   unchanged crate every one of these reads is permitted in every wrapper (an actuator wrapper holds
+//!   at most a shared borrow of its terminal while it calls `inner.set`, nothing otherwise). Oracle: no
+//!   read panics, and each read returns what the monitor's own read returned immediately before the
+//!   wrapper's `update()` (slots: what the monitor last wrote there) — the wrapper relays, it does not
+//!   change what the terminal shows before it has called the inner object. For the encoder wrapper only
+//!   the reads made in `inner.update()` and in the first `inner.get()` after it are compared (they
+//!   causally precede the write of that state); later ones are only required not to panic.
 //! Where the statement is silent (is `inner.update()` still called after a failing `inner.set`? does
 //! the encoder wrapper touch the command slot when it writes a state?) every behaviour is accepted.
 use rrtk::devices::wrappers::{ActuatorWrapper, GetterStateDeviceWrapper, PIDWrapper};
@@ -26,17 +37,22 @@ type Term<'a> = RefCell<Terminal<'a, E>>;
 /// Handle given (by value) to a wrapper; everything is recorded in the shared `RecSettable`.
 /// The `SettableData` lives here (the trait hands out plain references to it), so `follow` (used by
 /// `PIDWrapper::new`) lands here and `update` performs the following as the trait docs require.
-struct Shared<S: Clone> {
+struct Shared<'a, S: Clone> {
     data: SettableData<S, E>,
     rec: Rc<RefCell<RecSettable<S>>>,
+    /// observing stratum: terminals this inner object looks at from inside its own methods
+    probe: Option<Rc<RefCell<Probe<'a>>>>,
 }
-impl<S: Clone> Shared<S> {
-    fn new(rec: Rc<RefCell<RecSettable<S>>>) -> Self {
-        Shared { data: SettableData::new(), rec }
+impl<'a, S: Clone> Shared<'a, S> {
+    fn new(rec: Rc<RefCell<RecSettable<S>>>, probe: Option<Rc<RefCell<Probe<'a>>>>) -> Self {
+        Shared { data: SettableData::new(), rec, probe }
     }
 }
-impl<S: Clone> Settable<S, E> for Shared<S> {
+impl<S: Clone> Settable<S, E> for Shared<'_, S> {
     fn impl_set(&mut self, value: S) -> NothingOrError<E> {
+        if let Some(p) = &self.probe {
+            p.borrow_mut().observe('s');
+        }
         self.rec.borrow_mut().impl_set(value)
     }
     fn get_settable_data_ref(&self) -> &SettableData<S, E> {
@@ -46,10 +62,13 @@ impl<S: Clone> Settable<S, E> for Shared<S> {
         &mut self.data
     }
 }
-impl<S: Clone> Updatable<E> for Shared<S> {
+impl<S: Clone> Updatable<E> for Shared<'_, S> {
     fn update(&mut self) -> NothingOrError<E> {
         // records 'u' and yields the scripted update error (the RecSettable itself follows nothing)
         let r = self.rec.borrow_mut().update();
+        if let Some(p) = &self.probe {
+            p.borrow_mut().observe('u');
+        }
         // following (PID motor): a followed value arrives through impl_set and is recorded as 's'
         self.update_following_data()?;
         r
@@ -63,16 +82,22 @@ struct GState {
     updates: u64,
     gets: u64,
 }
-struct SGetter(Rc<RefCell<GState>>);
-impl Getter<State, E> for SGetter {
+struct SGetter<'a>(Rc<RefCell<GState>>, Option<Rc<RefCell<Probe<'a>>>>);
+impl Getter<State, E> for SGetter<'_> {
     fn get(&self) -> Out<State> {
+        if let Some(p) = &self.1 {
+            p.borrow_mut().observe('g');
+        }
         let mut g = self.0.borrow_mut();
         g.gets += 1;
         g.cur.clone()
     }
 }
-impl Updatable<E> for SGetter {
+impl Updatable<E> for SGetter<'_> {
     fn update(&mut self) -> NothingOrError<E> {
+        if let Some(p) = &self.1 {
+            p.borrow_mut().observe('u');
+        }
         let mut g = self.0.borrow_mut();
         g.updates += 1;
         g.cur = g.next.clone();
@@ -124,6 +149,146 @@ fn err_of(e: Option<u8>) -> NothingOrError<E> {
         Some(e) => Err(Error::Other(e)),
         None => Ok(()),
     }
+}
+// ------------------------------------------------------------------------------------------------
+// observing inner objects: what an inner object sees when it reads a terminal from inside its methods
+// ------------------------------------------------------------------------------------------------
+/// Every read the terminal API offers, each one individually guarded (Err = the read panicked).
+#[derive(Clone, Debug)]
+struct View {
+    td: Result<Out<TerminalData>, String>,
+    s: Result<Out<State>, String>,
+    c: Result<Out<Command>, String>,
+    slot_s: Result<Option<Datum<State>>, String>,
+    slot_c: Result<Option<Datum<Command>>, String>,
+}
+fn view(t: &Term<'_>) -> View {
+    View {
+        td: catch(|| <Terminal<E> as Getter<TerminalData, E>>::get(&t.borrow())),
+        s: catch(|| <Terminal<E> as Getter<State, E>>::get(&t.borrow())),
+        c: catch(|| <Terminal<E> as Getter<Command, E>>::get(&t.borrow())),
+        slot_s: catch(|| own_state(t)),
+        slot_c: catch(|| own_command(t)),
+    }
+}
+impl View {
+    fn all_ok(&self) -> bool {
+        self.td.is_ok() && self.s.is_ok() && self.c.is_ok() && self.slot_s.is_ok() && self.slot_c.is_ok()
+    }
+}
+/// One call of an inner-object method: 's' impl_set, 'u' update, 'g' get.
+#[derive(Clone, Debug)]
+struct Obs {
+    site: char,
+    own: Option<View>,
+    ext: Option<View>,
+}
+struct Probe<'a> {
+    own: Option<&'a Term<'a>>,
+    ext: Option<&'a Term<'a>>,
+    log: Vec<Obs>,
+}
+impl Probe<'_> {
+    fn observe(&mut self, site: char) {
+        let o = Obs { site, own: self.own.map(view), ext: self.ext.map(view) };
+        self.log.push(o);
+    }
+}
+/// What the monitor itself last wrote into the four slots (expected `get_last_request` values).
+#[derive(Clone, Copy, Default)]
+struct Slots {
+    own_s: Option<Datum<State>>,
+    own_c: Option<Datum<Command>>,
+    ext_s: Option<Datum<State>>,
+    ext_c: Option<Datum<Command>>,
+}
+impl Slots {
+    fn note(&mut self, o: &TermOps) {
+        if let Some((t, v)) = o.ext_s {
+            self.ext_s = Some(Datum::new(Time(t), st(v)));
+        }
+        if let Some((t, c)) = o.ext_c {
+            self.ext_c = Some(Datum::new(Time(t), c));
+        }
+        if let Some((t, v)) = o.own_s {
+            self.own_s = Some(Datum::new(Time(t), st(v)));
+        }
+        if let Some((t, c)) = o.own_c {
+            self.own_c = Some(Datum::new(Time(t), c));
+        }
+    }
+}
+/// Expected views of (own, ext) for the coming update: the monitor's own reads right now, with the slot
+/// reads replaced by what the monitor wrote. None if the monitor's own read fails (not judged here).
+fn expected_views(term: &Term<'_>, ext: &Term<'_>, m: &Slots) -> Option<(View, View)> {
+    let (mut a, mut b) = (view(term), view(ext));
+    if !(a.all_ok() && b.all_ok()) {
+        return None;
+    }
+    a.slot_s = Ok(m.own_s);
+    a.slot_c = Ok(m.own_c);
+    b.slot_s = Ok(m.ext_s);
+    b.slot_c = Ok(m.ext_c);
+    Some((a, b))
+}
+enum Bad {
+    Panic(String),
+    Differs(String),
+}
+fn fld<T: std::fmt::Debug>(name: &str, seen: &Result<T, String>, exp: &Result<T, String>, eq: impl Fn(&T, &T) -> bool, compare: bool) -> Result<u64, Bad> {
+    match (seen, exp) {
+        (Err(m), _) => Err(Bad::Panic(format!("{} panicked: {}", name, m))),
+        (Ok(v), Ok(e)) if compare => {
+            if eq(v, e) {
+                Ok(1)
+            } else {
+                Err(Bad::Differs(format!("{} returned {:?} to the inner object; immediately before update() it was {:?}", name, v, e)))
+            }
+        }
+        _ => Ok(0),
+    }
+}
+fn view_chk(which: &str, seen: &View, exp: &View, compare: bool) -> Result<u64, Bad> {
+    let mut n = 0;
+    n += fld(&format!("Getter<TerminalData>::get on the {} terminal", which), &seen.td, &exp.td, |a, b| out_same(a, b, td_same), compare)?;
+    n += fld(&format!("Getter<State>::get on the {} terminal", which), &seen.s, &exp.s, |a, b| out_same(a, b, ssame), compare)?;
+    n += fld(&format!("Getter<Command>::get on the {} terminal", which), &seen.c, &exp.c, |a, b| out_same(a, b, csame), compare)?;
+    n += fld(&format!("Settable<Datum<State>>::get_last_request on the {} terminal", which), &seen.slot_s, &exp.slot_s, ds_same, compare)?;
+    n += fld(&format!("Settable<Datum<Command>>::get_last_request on the {} terminal", which), &seen.slot_c, &exp.slot_c, dc_same, compare)?;
+    Ok(n)
+}
+/// Judge the observations an inner object made during one wrapper update. `compare(k, obs)` says whether
+/// observation k is one whose content the statement pins down (all of them must be panic-free).
+/// Returns false after recording a violation.
+fn judge_obs(rep: &mut Report, wrapper: &str, sub: &'static str, case: u64, round: usize, obs: &[Obs], exp: &(View, View), compare: impl Fn(usize, &Obs) -> bool, hist: &dyn Fn() -> String) -> bool {
+    for (k, o) in obs.iter().enumerate() {
+        let cmp = compare(k, o);
+        let site = match o.site { 's' => "impl_set", 'u' => "update", _ => "get" };
+        rep.tally(&format!("{}_inner_observations/in={}", wrapper, site));
+        for (which, seen, e) in [("wrapper's own", &o.own, &exp.0), ("connected external", &o.ext, &exp.1)] {
+            let seen = match seen {
+                Some(v) => v,
+                None => continue,
+            };
+            rep.eval();
+            match view_chk(which, seen, e, cmp) {
+                Ok(n) => rep.tally_n(&format!("{}_inner_reads_compared", wrapper), n),
+                Err(Bad::Panic(m)) => {
+                    rep.violation(&format!("C20/{}/inner-reads-terminal/panic", wrapper), sub, case, format!("round {}: inside the inner object's {}() (call {} of this update): {}; {}", round, site, k, m, hist()));
+                    return false;
+                }
+                Err(Bad::Differs(m)) => {
+                    rep.violation(&format!("C20/{}/inner-reads-terminal/changed", wrapper), sub, case, format!("round {}: inside the inner object's {}() (call {} of this update): {}; {}", round, site, k, m, hist()));
+                    return false;
+                }
+            }
+        }
+    }
+    true
+}
+/// Which handles the inner object of an observing case holds: (own terminal, external terminal).
+fn gen_handles(rng: &mut Rng) -> (bool, bool) {
+    *rng.pick(&[(true, true), (true, true), (true, false), (false, true)])
 }
 // ------------------------------------------------------------------------------------------------
 // what the harness does to the two terminals in one round
@@ -290,21 +455,31 @@ fn gen_act(rng: &mut Rng) -> Vec<SetRound> {
     let (pr, pu) = *rng.pick(&[(0.0, 0.0), (0.15, 0.1), (0.4, 0.3)]);
     tr.ops.into_iter().map(|ops| { let (reject, upd_err) = gen_inner(rng, pr, pu); SetRound { ops, reject, upd_err } }).collect()
 }
-fn run_act(rep: &mut Report, sub: &'static str, case: u64, rounds: &[SetRound]) {
+fn run_act(rep: &mut Report, sub: &'static str, case: u64, rounds: &[SetRound], observe: Option<(bool, bool)>) {
     let ext: Term<'_> = Terminal::new();
     let rec = rc(RecSettable::<TerminalData>::new());
-    let mut w = ActuatorWrapper::new(Shared::new(rec.clone()));
+    let probe = observe.map(|_| rc(Probe { own: None, ext: None, log: Vec::new() }));
+    let mut w = ActuatorWrapper::new(Shared::new(rec.clone(), probe.clone()));
     let term = w.get_terminal();
+    if let (Some(p), Some((own, other))) = (&probe, observe) {
+        let mut p = p.borrow_mut();
+        p.own = if own { Some(term) } else { None };
+        p.ext = if other { Some(&ext) } else { None };
+    }
+    let mut slots = Slots::default();
     let mut seq: Vec<(u8, u8)> = Vec::with_capacity(rounds.len());
-    let hist = || format!("rounds={:?}", rounds);
+    let hist = || format!("inner object holds (own terminal, external terminal) = {:?}; rounds={:?}", observe, rounds);
     for (i, r) in rounds.iter().enumerate() {
         apply(&r.ops, term, &ext);
+        slots.note(&r.ops);
         {
             let mut m = rec.borrow_mut();
             m.reject = r.reject.is_some();
             m.reject_with = r.reject.unwrap_or(9);
             m.update_err = r.upd_err;
         }
+        let exp_views = if probe.is_some() { expected_views(term, &ext, &slots) } else { None };
+        let o0p = probe.as_ref().map(|p| p.borrow().log.len()).unwrap_or(0);
         let before = match read_td(term) {
             Ok(Ok(b)) => b,
             other => {
@@ -330,6 +505,23 @@ fn run_act(rep: &mut Report, sub: &'static str, case: u64, rounds: &[SetRound]) 
         rep.tally(&format!("actuator_round/sees={}/inner={}", SEEN[sk as usize], INNER[ik as usize]));
         if rep.verbose {
             eprintln!("round {}: sees {:?}; update -> {:?}; sets {:?}; order {:?}", i, before, res, sets, order);
+        }
+        // ---- (o) observing inner object: its reads of the terminals neither panic nor differ from
+        // what the terminals showed immediately before the update (judged before anything else so that
+        // a panic inside the inner object is attributed to the read that caused it)
+        if let Some(p) = &probe {
+            let obs: Vec<Obs> = p.borrow().log[o0p..].to_vec();
+            if rep.verbose {
+                eprintln!("round {}: inner object observed {:?}", i, obs);
+            }
+            match &exp_views {
+                Some(e) => {
+                    if !judge_obs(rep, "actuator", sub, case, i, &obs, e, |_, _| true, &hist) {
+                        return;
+                    }
+                }
+                None => rep.tally("actuator_monitor_pre_read_failed(not_judged)"),
+            }
         }
         let res = match res {
             Ok(r) => r,
@@ -381,7 +573,7 @@ fn run_act(rep: &mut Report, sub: &'static str, case: u64, rounds: &[SetRound]) 
             rep.tally(if set_failed { "actuator_set_errors_propagated" } else { "actuator_update_errors_propagated" });
         }
     }
-    rep.distinct((sub, seq));
+    rep.distinct((sub, seq, observe));
     if rep.want_sample(sub) && rounds.iter().any(|r| r.ops.ext_s.is_some() || r.ops.own_c.is_some()) {
         rep.sample(sub, format!("{} rounds, first 3: {:?}", rounds.len(), &rounds[..rounds.len().min(3)]));
     }
@@ -427,15 +619,25 @@ fn gen_enc(rng: &mut Rng) -> Vec<EncRound> {
         })
         .collect()
 }
-fn run_enc(rep: &mut Report, sub: &'static str, case: u64, rounds: &[EncRound]) {
+fn run_enc(rep: &mut Report, sub: &'static str, case: u64, rounds: &[EncRound], observe: Option<(bool, bool)>) {
     let ext: Term<'_> = Terminal::new();
     let gs = rc(GState { cur: Ok(None), next: Ok(None), upd_err: None, updates: 0, gets: 0 });
-    let mut w = GetterStateDeviceWrapper::new(SGetter(gs.clone()));
+    let probe = observe.map(|_| rc(Probe { own: None, ext: None, log: Vec::new() }));
+    let mut w = GetterStateDeviceWrapper::new(SGetter(gs.clone(), probe.clone()));
     let term = w.get_terminal();
+    if let (Some(p), Some((own, other))) = (&probe, observe) {
+        let mut p = p.borrow_mut();
+        p.own = if own { Some(term) } else { None };
+        p.ext = if other { Some(&ext) } else { None };
+    }
+    let mut slots = Slots::default();
     let mut seq: Vec<(u8, bool, bool)> = Vec::with_capacity(rounds.len());
-    let hist = || format!("rounds={:?}", rounds);
+    let hist = || format!("inner object holds (own terminal, external terminal) = {:?}; rounds={:?}", observe, rounds);
     for (i, r) in rounds.iter().enumerate() {
         apply(&r.ops, term, &ext);
+        slots.note(&r.ops);
+        let exp_views = if probe.is_some() { expected_views(term, &ext, &slots) } else { None };
+        let o0p = probe.as_ref().map(|p| p.borrow().log.len()).unwrap_or(0);
         let present: Out<State> = match &r.getter {
             Ev::Some(t, v) => Ok(Some(Datum::new(Time(*t), st(*v)))),
             Ev::None => Ok(None),
@@ -456,6 +658,24 @@ fn run_enc(rep: &mut Report, sub: &'static str, case: u64, rounds: &[EncRound]) 
         rep.tally(&format!("encoder_round/getter={}/inner_update={}", gk, if r.upd_err.is_some() { "error" } else { "ok" }));
         if rep.verbose {
             eprintln!("round {}: getter {:?} upd_err {:?}; update -> {:?}; own state {:?} -> {:?}; own command {:?} -> {:?}; inner updates {}", i, r.getter, r.upd_err, res, s0, s1, c0, c1, du);
+        }
+        // ---- (o) observing inner getter: reads made in update() and in the first get() after it
+        // causally precede the write of that state, so they must show the terminals as they were
+        // immediately before the wrapper's update; every read must be panic-free
+        if let Some(p) = &probe {
+            let obs: Vec<Obs> = p.borrow().log[o0p..].to_vec();
+            if rep.verbose {
+                eprintln!("round {}: inner object observed {:?}", i, obs);
+            }
+            let first_get = obs.iter().position(|o| o.site == 'g');
+            match &exp_views {
+                Some(e) => {
+                    if !judge_obs(rep, "encoder", sub, case, i, &obs, e, |k, o| o.site == 'u' && first_get.map(|g| k < g).unwrap_or(true) || Some(k) == first_get, &hist) {
+                        return;
+                    }
+                }
+                None => rep.tally("encoder_monitor_pre_read_failed(not_judged)"),
+            }
         }
         let res = match res {
             Ok(r) => r,
@@ -487,6 +707,7 @@ fn run_enc(rep: &mut Report, sub: &'static str, case: u64, rounds: &[EncRound]) 
                     return;
                 }
                 rep.tally("encoder_states_compared");
+                slots.own_s = Some(d);
                 if !dc_same(&c0, &c1) {
                     rep.tally("encoder_command_slot_changed_while_writing_state(not_judged)");
                 }
@@ -510,7 +731,7 @@ fn run_enc(rep: &mut Report, sub: &'static str, case: u64, rounds: &[EncRound]) 
             rep.tally(if r.upd_err.is_some() { "encoder_update_errors_propagated" } else { "encoder_get_errors_propagated" });
         }
     }
-    rep.distinct((sub, seq));
+    rep.distinct((sub, seq, observe));
     if rep.want_sample(sub) {
         rep.sample(sub, format!("{} rounds, first 3: {:?}", rounds.len(), &rounds[..rounds.len().min(3)]));
     }
@@ -550,11 +771,12 @@ fn gen_pid(rng: &mut Rng) -> PidCase {
         rounds,
     }
 }
-fn run_pid(rep: &mut Report, sub: &'static str, case: u64, c: &PidCase) {
-    let hist = || format!("case={:?}", c);
+fn run_pid(rep: &mut Report, sub: &'static str, case: u64, c: &PidCase, observe: Option<(bool, bool)>) {
+    let hist = || format!("inner object holds (own terminal, external terminal) = {:?}; case={:?}", observe, c);
     let ext: Term<'_> = Terminal::new();
     let rec = rc(RecSettable::<f32>::new());
-    let built = catch(|| PIDWrapper::new(Shared::new(rec.clone()), Time(c.t0), st(c.s0), c.c0, kvals(&c.gains)));
+    let probe = observe.map(|_| rc(Probe { own: None, ext: None, log: Vec::new() }));
+    let built = catch(|| PIDWrapper::new(Shared::new(rec.clone(), probe.clone()), Time(c.t0), st(c.s0), c.c0, kvals(&c.gains)));
     let mut w = match built {
         Ok(w) => w,
         Err(m) => {
@@ -564,6 +786,12 @@ fn run_pid(rep: &mut Report, sub: &'static str, case: u64, c: &PidCase) {
         }
     };
     let term = w.get_terminal();
+    if let (Some(p), Some((own, other))) = (&probe, observe) {
+        let mut p = p.borrow_mut();
+        p.own = if own { Some(term) } else { None };
+        p.ext = if other { Some(&ext) } else { None };
+    }
+    let mut slots = Slots::default();
     // ---- the twin: a stand-alone CommandPID wired as the wrapper documents
     let time = rc(Time(c.t0));
     let time_ref: Reference<Time> = Reference::from_rc_ref_cell(time.clone());
@@ -576,12 +804,15 @@ fn run_pid(rep: &mut Report, sub: &'static str, case: u64, c: &PidCase) {
     let mut cmd_in_force = c.c0;
     for (i, r) in c.rounds.iter().enumerate() {
         apply(&r.ops, term, &ext);
+        slots.note(&r.ops);
         {
             let mut m = rec.borrow_mut();
             m.reject = r.reject.is_some();
             m.reject_with = r.reject.unwrap_or(9);
             m.update_err = r.upd_err;
         }
+        let exp_views = if probe.is_some() { expected_views(term, &ext, &slots) } else { None };
+        let o0p = probe.as_ref().map(|p| p.borrow().log.len()).unwrap_or(0);
         let before = match read_td(term) {
             Ok(Ok(b)) => b,
             _ => {
@@ -633,6 +864,22 @@ fn run_pid(rep: &mut Report, sub: &'static str, case: u64, c: &PidCase) {
         if rep.verbose {
             eprintln!("round {}: sees {:?}; twin update {:?} get {:?}; wrapper update -> {:?}; motor sets {:?} order {:?}", i, before, twin_res, twin_out, res, sets, order);
         }
+        // ---- (o) observing motor: its reads of the terminals (in update() and in the impl_set its
+        // following triggers) neither panic nor differ from what the terminals showed before the update
+        if let Some(p) = &probe {
+            let obs: Vec<Obs> = p.borrow().log[o0p..].to_vec();
+            if rep.verbose {
+                eprintln!("round {}: inner object observed {:?}", i, obs);
+            }
+            match &exp_views {
+                Some(e) => {
+                    if !judge_obs(rep, "pid", sub, case, i, &obs, e, |_, _| true, &hist) {
+                        return;
+                    }
+                }
+                None => rep.tally("pid_monitor_pre_read_failed(not_judged)"),
+            }
+        }
         let res = match res {
             Ok(r) => r,
             Err(m) => {
@@ -682,7 +929,7 @@ fn run_pid(rep: &mut Report, sub: &'static str, case: u64, c: &PidCase) {
             rep.tally("pid_motor_errors_propagated");
         }
     }
-    rep.distinct((sub, seq, c.strict));
+    rep.distinct((sub, seq, c.strict, observe));
     if rep.want_sample(sub) {
         rep.sample(sub, format!("t0={} s0={:?} c0={:?} gains={:?} strict={} {} rounds, first 3: {:?}", c.t0, c.s0, c.c0, c.gains, c.strict, c.rounds.len(), &c.rounds[..c.rounds.len().min(3)]));
     }
@@ -720,7 +967,7 @@ fn main() {
                     let r = SetRound { ops, reject: if inner & 1 != 0 { Some(5) } else { None }, upd_err: if inner & 2 != 0 { Some(7) } else { None } };
                     // second round: same terminal contents, inner object healthy again
                     let r2 = SetRound { ops: TermOps::default(), reject: None, upd_err: None };
-                    run_act(&mut rep, "act-grid", case, &[r, r2]);
+                    run_act(&mut rep, "act-grid", case, &[r, r2], None);
                 }
             }
         }
@@ -730,7 +977,14 @@ fn main() {
     for case in args.cases("actuator", 60_000, 3_000_000) {
         let mut rng = Rng::new(args.seed, 2002, case);
         let rounds = gen_act(&mut rng);
-        run_act(&mut rep, "actuator", case, &rounds);
+        run_act(&mut rep, "actuator", case, &rounds, None);
+    }
+    // ---- 1c. actuator with an inner settable that reads the terminals from inside set / update
+    for case in args.cases("act-observing", 20_000, 400_000) {
+        let mut rng = Rng::new(args.seed, 2006, case);
+        let rounds = gen_act(&mut rng);
+        let h = gen_handles(&mut rng);
+        run_act(&mut rep, "act-observing", case, &rounds, Some(h));
     }
     // ---- 2a. encoder: every single-round configuration
     {
@@ -759,7 +1013,7 @@ fn main() {
                     let r = EncRound { ops, getter, upd_err: if ue != 0 { Some(3) } else { None } };
                     let r2 = EncRound { ops: TermOps::default(), getter: Ev::Some(t + 2, s4), upd_err: None };
                     let r3 = EncRound { ops: TermOps::default(), getter: Ev::None, upd_err: None };
-                    run_enc(&mut rep, "enc-grid", case, &[r, r2, r3]);
+                    run_enc(&mut rep, "enc-grid", case, &[r, r2, r3], None);
                 }
             }
         }
@@ -769,13 +1023,27 @@ fn main() {
     for case in args.cases("encoder", 60_000, 3_000_000) {
         let mut rng = Rng::new(args.seed, 2004, case);
         let rounds = gen_enc(&mut rng);
-        run_enc(&mut rep, "encoder", case, &rounds);
+        run_enc(&mut rep, "encoder", case, &rounds, None);
+    }
+    // ---- 2c. encoder with an inner getter that reads the terminals from inside update / get
+    for case in args.cases("enc-observing", 20_000, 400_000) {
+        let mut rng = Rng::new(args.seed, 2007, case);
+        let rounds = gen_enc(&mut rng);
+        let h = gen_handles(&mut rng);
+        run_enc(&mut rep, "enc-observing", case, &rounds, Some(h));
     }
     // ---- 3. PID wrapper vs twin CommandPID
     for case in args.cases("pid", 60_000, 3_000_000) {
         let mut rng = Rng::new(args.seed, 2005, case);
         let c = gen_pid(&mut rng);
-        run_pid(&mut rep, "pid", case, &c);
+        run_pid(&mut rep, "pid", case, &c, None);
+    }
+    // ---- 3b. PID wrapper with a motor that reads the terminals from inside update / set
+    for case in args.cases("pid-observing", 20_000, 400_000) {
+        let mut rng = Rng::new(args.seed, 2008, case);
+        let c = gen_pid(&mut rng);
+        let h = gen_handles(&mut rng);
+        run_pid(&mut rep, "pid-observing", case, &c, Some(h));
     }
     // coverage the verdict depends on (merged over shards; thorough budgets are 50x larger)
     let k = if args.thorough { 200 } else { 10 };
@@ -795,5 +1063,13 @@ fn main() {
     rep.floor("pid_rounds_no_motor_value", 2_000 * k);
     rep.floor("pid_command_changes", 2_000 * k);
     rep.floor("pid_motor_errors_propagated", 1_000 * k);
+    // observing-inner-object stratum (20k / 400k histories per wrapper, i.e. thorough = 20x quick like k; about 4e6 reads compared per wrapper in the quick tier)
+    for w in ["actuator", "encoder", "pid"] {
+        rep.floor(&format!("{}_inner_reads_compared", w), 100_000 * k);
+        rep.floor(&format!("{}_inner_observations/in=update", w), 5_000 * k);
+    }
+    rep.floor("actuator_inner_observations/in=impl_set", 5_000 * k);
+    rep.floor("pid_inner_observations/in=impl_set", 5_000 * k);
+    rep.floor("encoder_inner_observations/in=get", 5_000 * k);
     rep.finish(&args);
 }
